@@ -65,7 +65,20 @@ def py_len(ex, st, ctx, v, node):
         return z3.Length(st.heap.lget(rval(v)))
     isseq = z3.And(is_Ref(v), z3.Or(ty(rval(v)) == T_LIST, ty(rval(v)) == T_TUPLE, ty(rval(v)) == T_SET))
     isd = z3.And(is_Ref(v), ty(rval(v)) == T_DICT)
-    ex.raise_if(st, ctx, z3.Not(z3.Or(is_Str(v), isseq, isd)), "TypeError", node=node)
+    ex.raise_if(st, ctx, z3.Not(z3.Or(is_Str(v), isseq, isd, is_Opq(v))), "TypeError", node=node)
+    if tag == "opq" or (tag is None and not is_false(z3.And(st.pc, is_Opq(v)))):
+        # an external sized object (bytes): its length is an uninterpreted non-negative integer (A2)
+        ol = z3.Function("u_opqlen", I, I)(oid(v))
+        ex.assumptions.append(z3.Function("u_opqlen", I, I)(oid(v)) >= 0)
+        if tag == "opq":
+            return ol
+        rest = py_len_nonopq(ex, st, v)
+        return z3.If(is_Opq(v), ol, rest)
+    return py_len_nonopq(ex, st, v)
+
+
+def py_len_nonopq(ex, st, v):
+    isseq = z3.And(is_Ref(v), z3.Or(ty(rval(v)) == T_LIST, ty(rval(v)) == T_TUPLE, ty(rval(v)) == T_SET))
     dlen = z3.Function("u_dictlen", KP, I)
     dl = dlen(z3.Select(st.heap.DP, rval(v)))
     ex.assumptions.append(dl >= 0)
@@ -609,6 +622,8 @@ def spec_func(ex, st, ctx, name, args, node):
         r = rval(args[0])
         n = as_int(args[1])
         return VBool(z3.Extract(z3.Select(st.heap.LS, r), 0, n) == z3.Extract(z3.Select(pre.heap.LS, r), 0, n))
+    if name == "isbytes":
+        return VBool(is_Opq(args[0]))          # bytes objects are opaque externals with a length
     if name == "isemptydict":
         v = args[0]
         return VBool(z3.And(is_Ref(v), ty(rval(v)) == T_DICT, z3.Select(st.heap.DP, rval(v)) == EMPTY_KP))
